@@ -38,14 +38,18 @@ func TestProp(t *testing.T) {
 		"a seeded reference model value (each OPTIONAL present/absent incl. all-absent and all-present cases, Int32/UInt32 boundary integers, 0..4 name components incl. empty ones, one field per case forced to 0/1/127/128/255/256/65535/65536 bytes, " +
 		"flag bit i alone for case i<32, whole-second times) is (a) built as a gokrb5 value, marshalled and unmarshalled by gokrb5: values must be equal (nil = empty slice, fields not part of the encoding ignored); " +
 		"(b) the marshalled bytes must be accepted by the strict reference decoder ref/kmsg and decode to the model's field values; (c) the reference encoding is unmarshalled by gokrb5: fields must equal the model and Marshal must reproduce the bytes, " +
-		"both judged only when no OPTIONAL field carries a zero/empty value; (d) the same after Ticket.DecryptEncPart, APReq.Verify, ASRep.DecryptEncPart/Verify, TGSRep.DecryptEncPart, KRBPriv.DecryptEncPart on reference-minted messages for all six etypes; " +
+		"both judged only when no OPTIONAL field carries a zero/empty value; (d) the same after Ticket.DecryptEncPart, ASRep.DecryptEncPart/Verify, TGSRep.DecryptEncPart/Verify, KRBPriv.DecryptEncPart on reference-minted messages for all six etypes, and after each way a service uses a decoded AP-REQ " +
+		"(APReq.Verify and service.VerifyAPREQ with and without a keytab principal override that differs from the ticket's sname in components or only in name-type, with PAC decoding, on an expired ticket, without a matching key, Ticket.Decrypt+DecryptAuthenticator, " +
+		"Ticket.DecryptEncPart+GetPACType with an override): Marshal must reproduce the received bytes and the encoded fields must equal those of a second untouched decoding, whatever the outcome of the use; " +
+		"(g) every type with a KerberosFlags field (AS-REQ, TGS-REQ, KDC-REQ-BODY, EncKDCRepPart, AP-REQ, KRB5 token; EncTicketPart via Ticket.DecryptEncPart and NewTicket) with flags of every bit length 33..72 and some up to 400 bits whose last bit is set " +
+		"(RFC 4120 5.2.8 minimal encoding, non-zero unused-bits octet unless a multiple of 8): directions a, b, c against the reference encoding with its BIT STRING element extended; " +
 		"(e) asn1tools length helpers against ref/der.Len; (f) SetFlag/IsFlagSet/UnsetFlag against the reference flag encoding. distinct = case key; non-trivial = all (each compares encodings or values)")
 	r.Assume("ref/kmsg strict decoders and encoders (self-tested against the MIT krb5 reference encodings and captured SPNEGO tokens in `go test ./ref/kmsg`, and at start-up by re-encoding round trips); ref/kcrypto self-tested against RFC vectors")
 	r.Note("observe-only (not judged): re-encoding and field equality of reference encodings in which an OPTIONAL field is present with a zero/empty value (gokrb5 structs use the zero value for 'absent'); " +
 		"NegTokenResp without negState (RFC 4178 OPTIONAL, gokrb5 field is mandatory: decode outcome is counted only); EncTGSRepPart ([APPLICATION 26]) re-encoded by EncKDCRepPart.Marshal, which always writes [APPLICATION 25]; " +
-		"all-zero elements (type 0, empty data) inside OPTIONAL SEQUENCE OF fields")
+		"all-zero elements (type 0, empty data) inside OPTIONAL SEQUENCE OF fields; KerberosFlags longer than 32 bits ending in zero bits (not the RFC's minimal encoding) and shorter than 32 bits; the outcome (accept/reject) of the uses in (d)")
 	r.Note("decode-only in gokrb5 (no Marshal): AP-REP and KRB-ERROR KRB5 mech tokens, APRep, EncAPRepPart -> only reference-encoded bytes are unmarshalled and compared field by field. encode-only (no Unmarshal): kadmin.ChangePasswdData -> only direction (b)")
-	r.Note("not exercised: times with fractional seconds or non-UTC zones (KerberosTime has none), integers outside the RFC range of the field (negative UInt32, Microseconds > 999999), OID arcs >= 2^28, flags values shorter than 32 bits; JDK second-opinion decoder of DESIGN.md is not wired into this check")
+	r.Note("not exercised: times with fractional seconds or non-UTC zones (KerberosTime has none), integers outside the RFC range of the field (negative UInt32, Microseconds > 999999), OID arcs >= 2^28; JDK second-opinion decoder of DESIGN.md is not wired into this check")
 
 	var tasks []func()
 	add := func(f func()) { tasks = append(tasks, f) }
@@ -66,9 +70,22 @@ func TestProp(t *testing.T) {
 		}
 		r.Require(tn+"_ref_decoded_equal", n*8/10)
 	}
-	for _, k := range []string{"op_ticket_decrypt_checked", "op_apreq_verify_checked", "op_asrep_decrypt_checked", "op_asrep_verify_checked", "op_tgsrep_decrypt_checked", "op_krbpriv_decrypt_checked", "op_newticket_ref_decoded", "op_krbpriv_encrypt_ref_decoded"} {
+	for _, k := range []string{"op_ticket_decrypt_checked", "op_apreq_verify_checked", "op_asrep_decrypt_checked", "op_asrep_verify_checked", "op_tgsrep_decrypt_checked", "op_tgsrep_verify_checked", "op_krbpriv_decrypt_checked", "op_newticket_ref_decoded", "op_krbpriv_encrypt_ref_decoded"} {
 		r.Require(k, 12)
 	}
+	for _, tn := range flagTypes {
+		// every bit length 33..72 plus a few longer ones per type; EncKDCRepPart re-encodes 1/3 of its cases under the other tag (observe-only)
+		r.Require(tn+"_flagbits_roundtrip_equal", 40)
+		r.Require(tn+"_flagbits_ref_decoded_equal", 40)
+		r.Require(tn+"_flagbits_ref_reencoded_exact", 20)
+	}
+	r.Require("flagbits_judged_not_octet_aligned", 7*30)
+	for _, k := range apUseOps() {
+		r.Require(k+"_checked", 12)
+		r.Require(k+"_fields_unchanged", 12)
+	}
+	r.Require("op_enc_ticket_part_long_flags_fields_equal", 6)
+	r.Require("op_newticket_long_flags_ref_decoded", 6)
 	r.Require("constructor_krberror_conformant", 10)
 	r.Require("constructor_authenticator_conformant", 10)
 	r.Require("constructor_asreq_conformant", 10)
@@ -112,6 +129,11 @@ func refSelfTest() error {
 		if d, err := kmsg.ParseAuthenticatorStrict(a.DER()); err != nil || !bytes.Equal(d.DER(), a.DER()) {
 			return fmt.Errorf("Authenticator %d: %v", i, err)
 		}
+		// the splice of the flag bit length family must leave everything but the flags element alone
+		g.long = &longFlags{bits: 32, mode: "minimal"}
+		if sb := g.lf(b.DER()); g.bad != "" || !bytes.Equal(sb, b.DER()) {
+			return fmt.Errorf("flags splice %d: not the identity at 32 bits %s", i, g.bad)
+		}
 	}
 	return nil
 }
@@ -131,6 +153,7 @@ type kase[G any] struct {
 type spec[G any] struct {
 	name      string
 	minSlots  int
+	hasFlags  bool // the type carries one KerberosFlags field: the flag bit length family runs for it as well
 	gen       func(g *gen) kase[G]
 	refParse  func([]byte) ([]byte, error) // strict reference decoder, returns the re-encoding of what it decoded
 	marshal   func(*G) ([]byte, error)
@@ -152,113 +175,129 @@ func run[G any](r *vh.Run, add func(func()), s spec[G]) {
 		if !r.Mine(ck) {
 			continue
 		}
-		add(func() {
-			r.Eval(ck, true)
-			r.Progress(ck)
-			gn := newGen(T, i, s.minSlots)
-			k := s.gen(gn)
-			if k.bad != "" {
-				r.Inconclusive(ck + ": " + k.bad)
-				return
-			}
-			zo := !bytes.Equal(k.ref, k.norm) && k.reObserve == ""
-			det := func(extra map[string]any) map[string]any {
-				d := map[string]any{"case": ck, "type": T, "ref_len": len(k.ref), "ref_hex": hexCut(k.ref), "norm_hex": hexCut(k.norm), "zero_valued_optional": zo, "forced_len": gn.longLen}
-				for kk, v := range extra {
-					d[kk] = v
-				}
-				return d
-			}
-			// (a) + (b): from the gokrb5 value
-			if s.marshal != nil {
-				var eb []byte
-				var err error
-				gv := k.g
-				if p, v, w := vh.Guard(func() { eb, err = s.marshal(&gv) }); p {
-					r.Violation(fmt.Sprintf("C13|panic|%s|marshal|%s", T, vh.PanicClass(v)), T+".Marshal panicked: "+v, det(map[string]any{"where": w}))
-					return
-				}
-				if err != nil {
-					r.Violation("C13|"+T+"|marshal-error", T+".Marshal of a representable value failed: "+err.Error(), det(nil))
-					return
-				}
-				re, perr := s.refParse(eb)
-				switch {
-				case perr != nil:
-					r.Violation("C13|"+T+"|nonconformant|"+errClass(perr), fmt.Sprintf("strict reference decoder rejects the bytes of %s.Marshal: %v", T, perr), det(map[string]any{"marshalled_hex": hexCut(eb), "diff_vs_reference": derDiff(eb, k.norm)}))
-				case !bytes.Equal(re, eb):
-					r.Inconclusive(fmt.Sprintf("%s: reference decoder/encoder not canonical on gokrb5 bytes (%s)", ck, derDiff(re, eb)))
-				case !bytes.Equal(eb, k.norm):
-					dd := derDiff(eb, k.norm)
-					r.Violation("C13|"+T+"|encoded-fields|"+dd, fmt.Sprintf("%s.Marshal bytes decode (reference decoder) to other field values than the value marshalled; first difference at %s", T, dd), det(map[string]any{"marshalled_hex": hexCut(eb)}))
-				default:
-					r.Inc(T + "_ref_decoded_equal")
-				}
-				if s.unmarshal != nil {
-					var g2 G
-					if p, v, w := vh.Guard(func() { err = s.unmarshal(&g2, append([]byte{}, eb...)) }); p {
-						r.Violation(fmt.Sprintf("C13|panic|%s|unmarshal|%s", T, vh.PanicClass(v)), T+".Unmarshal panicked on gokrb5's own encoding: "+v, det(map[string]any{"where": w, "marshalled_hex": hexCut(eb)}))
-					} else if err != nil {
-						r.Violation("C13|"+T+"|unmarshal-own-encoding", T+".Unmarshal rejects the bytes of "+T+".Marshal: "+err.Error(), det(map[string]any{"marshalled_hex": hexCut(eb)}))
-					} else if d := s.eq(&k.g, &g2); d != "" {
-						r.Violation("C13|"+T+"|roundtrip-value|"+d, fmt.Sprintf("Unmarshal(Marshal(v)) differs from v at %s", d), det(map[string]any{"marshalled_hex": hexCut(eb), "v": cut(fmt.Sprintf("%+v", k.g)), "decoded": cut(fmt.Sprintf("%+v", g2))}))
-					} else {
-						r.Inc(T + "_roundtrip_equal")
-					}
-				}
-			}
-			// (c): from the reference encoding
-			if s.unmarshal == nil {
-				return
-			}
-			var g3 G
-			var err error
-			if p, v, w := vh.Guard(func() { err = s.unmarshal(&g3, append([]byte{}, k.ref...)) }); p {
-				r.Violation(fmt.Sprintf("C13|panic|%s|unmarshal|%s", T, vh.PanicClass(v)), T+".Unmarshal panicked on a reference encoding: "+v, det(map[string]any{"where": w}))
-				return
-			}
-			if err != nil {
-				if zo {
-					r.Inc("observe_" + T + "_zero_optional_ref_rejected")
-					return
-				}
-				r.Violation("C13|"+T+"|ref-decode-error", T+".Unmarshal rejects a reference encoding without zero-valued optionals: "+err.Error(), det(nil))
-				return
-			}
-			if d := s.eq(&k.g, &g3); d != "" {
-				if zo {
-					r.Inc("observe_" + T + "_zero_optional_fields_differ")
-				} else {
-					r.Violation("C13|"+T+"|ref-decoded-fields|"+d, fmt.Sprintf("%s.Unmarshal of a reference encoding yields other field values at %s", T, d), det(map[string]any{"expected": cut(fmt.Sprintf("%+v", k.g)), "decoded": cut(fmt.Sprintf("%+v", g3))}))
-					return
-				}
+		add(func() { judge(r, s, ck, T, newGen(T, i, s.minSlots)) })
+	}
+	if s.hasFlags {
+		flagBitsCases(r, add, s)
+	}
+}
+
+// judge decides directions (a), (b), (c) for the case that generator gn yields; cp prefixes the counters of its family.
+func judge[G any](r *vh.Run, s spec[G], ck, cp string, gn *gen) {
+	T := s.name
+	if s.eq == nil {
+		s.eq = func(a, b *G) string { return valueDiff(*a, *b) }
+	}
+	r.Eval(ck, true)
+	r.Progress(ck)
+	k := s.gen(gn)
+	if k.bad == "" {
+		k.bad = gn.bad
+	}
+	if k.bad != "" {
+		r.Inconclusive(ck + ": " + k.bad)
+		return
+	}
+	zo := !bytes.Equal(k.ref, k.norm) && k.reObserve == ""
+	det := func(extra map[string]any) map[string]any {
+		d := map[string]any{"case": ck, "type": T, "ref_len": len(k.ref), "ref_hex": hexCut(k.ref), "norm_hex": hexCut(k.norm), "zero_valued_optional": zo, "forced_len": gn.longLen}
+		if gn.long != nil {
+			d["flags_bit_length"] = gn.long.bits
+		}
+		for kk, v := range extra {
+			d[kk] = v
+		}
+		return d
+	}
+	// (a) + (b): from the gokrb5 value
+	if s.marshal != nil {
+		var eb []byte
+		var err error
+		gv := k.g
+		if p, v, w := vh.Guard(func() { eb, err = s.marshal(&gv) }); p {
+			r.Violation(fmt.Sprintf("C13|panic|%s|marshal|%s", T, vh.PanicClass(v)), T+".Marshal panicked: "+v, det(map[string]any{"where": w}))
+			return
+		}
+		if err != nil {
+			r.Violation("C13|"+T+"|marshal-error", T+".Marshal of a representable value failed: "+err.Error(), det(nil))
+			return
+		}
+		re, perr := s.refParse(eb)
+		switch {
+		case perr != nil:
+			r.Violation("C13|"+T+"|nonconformant|"+errClass(perr), fmt.Sprintf("strict reference decoder rejects the bytes of %s.Marshal: %v", T, perr), det(map[string]any{"marshalled_hex": hexCut(eb), "diff_vs_reference": derDiff(eb, k.norm)}))
+		case !bytes.Equal(re, eb) && gn.long == nil:
+			// (the reference model keeps 32 flag bits: for a longer flags value the comparison with the reference encoding below decides alone)
+			r.Inconclusive(fmt.Sprintf("%s: reference decoder/encoder not canonical on gokrb5 bytes (%s)", ck, derDiff(re, eb)))
+		case !bytes.Equal(eb, k.norm):
+			dd := derDiff(eb, k.norm)
+			r.Violation("C13|"+T+"|encoded-fields|"+dd, fmt.Sprintf("%s.Marshal bytes decode (reference decoder) to other field values than the value marshalled; first difference at %s", T, dd), det(map[string]any{"marshalled_hex": hexCut(eb)}))
+		default:
+			r.Inc(cp + "_ref_decoded_equal")
+		}
+		if s.unmarshal != nil {
+			var g2 G
+			if p, v, w := vh.Guard(func() { err = s.unmarshal(&g2, append([]byte{}, eb...)) }); p {
+				r.Violation(fmt.Sprintf("C13|panic|%s|unmarshal|%s", T, vh.PanicClass(v)), T+".Unmarshal panicked on gokrb5's own encoding: "+v, det(map[string]any{"where": w, "marshalled_hex": hexCut(eb)}))
+			} else if err != nil {
+				r.Violation("C13|"+T+"|unmarshal-own-encoding", T+".Unmarshal rejects the bytes of "+T+".Marshal: "+err.Error(), det(map[string]any{"marshalled_hex": hexCut(eb)}))
+			} else if d := s.eq(&k.g, &g2); d != "" {
+				r.Violation("C13|"+T+"|roundtrip-value|"+d, fmt.Sprintf("Unmarshal(Marshal(v)) differs from v at %s", d), det(map[string]any{"marshalled_hex": hexCut(eb), "v": cut(fmt.Sprintf("%+v", k.g)), "decoded": cut(fmt.Sprintf("%+v", g2))}))
 			} else {
-				r.Inc(T + "_ref_fields_equal")
+				r.Inc(cp + "_roundtrip_equal")
 			}
-			if s.marshal == nil {
-				return
-			}
-			var rb []byte
-			if p, v, w := vh.Guard(func() { rb, err = s.marshal(&g3) }); p {
-				r.Violation(fmt.Sprintf("C13|panic|%s|marshal|%s", T, vh.PanicClass(v)), T+".Marshal panicked on an unmarshalled value: "+v, det(map[string]any{"where": w}))
-				return
-			}
-			exact := err == nil && bytes.Equal(rb, k.ref)
-			switch {
-			case k.reObserve != "":
-				r.Inc(fmt.Sprintf("observe_%s_reencode_%s_exact=%v", T, k.reObserve, exact))
-			case zo:
-				r.Inc(fmt.Sprintf("observe_%s_zero_optional_reencode_exact=%v", T, exact))
-			case err != nil:
-				r.Violation("C13|"+T+"|reencode-error", T+".Marshal of an unmarshalled message failed: "+err.Error(), det(nil))
-			case !exact:
-				dd := derDiff(rb, k.ref)
-				r.Violation("C13|"+T+"|reencode|"+dd, fmt.Sprintf("%s: Marshal(Unmarshal(b)) != b for a reference encoding without zero-valued optionals; first difference at %s", T, dd), det(map[string]any{"reencoded_hex": hexCut(rb), "reencoded_len": len(rb)}))
-			default:
-				r.Inc(T + "_ref_reencoded_exact")
-				r.SampleKind(T, 1, map[string]any{"case": ck, "hex": hexCut(k.ref)})
-			}
-		})
+		}
+	}
+	// (c): from the reference encoding
+	if s.unmarshal == nil {
+		return
+	}
+	var g3 G
+	var err error
+	if p, v, w := vh.Guard(func() { err = s.unmarshal(&g3, append([]byte{}, k.ref...)) }); p {
+		r.Violation(fmt.Sprintf("C13|panic|%s|unmarshal|%s", T, vh.PanicClass(v)), T+".Unmarshal panicked on a reference encoding: "+v, det(map[string]any{"where": w}))
+		return
+	}
+	if err != nil {
+		if zo {
+			r.Inc("observe_" + cp + "_zero_optional_ref_rejected")
+			return
+		}
+		r.Violation("C13|"+T+"|ref-decode-error", T+".Unmarshal rejects a reference encoding without zero-valued optionals: "+err.Error(), det(nil))
+		return
+	}
+	if d := s.eq(&k.g, &g3); d != "" {
+		if zo {
+			r.Inc("observe_" + cp + "_zero_optional_fields_differ")
+		} else {
+			r.Violation("C13|"+T+"|ref-decoded-fields|"+d, fmt.Sprintf("%s.Unmarshal of a reference encoding yields other field values at %s", T, d), det(map[string]any{"expected": cut(fmt.Sprintf("%+v", k.g)), "decoded": cut(fmt.Sprintf("%+v", g3))}))
+			return
+		}
+	} else {
+		r.Inc(cp + "_ref_fields_equal")
+	}
+	if s.marshal == nil {
+		return
+	}
+	var rb []byte
+	if p, v, w := vh.Guard(func() { rb, err = s.marshal(&g3) }); p {
+		r.Violation(fmt.Sprintf("C13|panic|%s|marshal|%s", T, vh.PanicClass(v)), T+".Marshal panicked on an unmarshalled value: "+v, det(map[string]any{"where": w}))
+		return
+	}
+	exact := err == nil && bytes.Equal(rb, k.ref)
+	switch {
+	case k.reObserve != "":
+		r.Inc(fmt.Sprintf("observe_%s_reencode_%s_exact=%v", cp, k.reObserve, exact))
+	case zo:
+		r.Inc(fmt.Sprintf("observe_%s_zero_optional_reencode_exact=%v", cp, exact))
+	case err != nil:
+		r.Violation("C13|"+T+"|reencode-error", T+".Marshal of an unmarshalled message failed: "+err.Error(), det(nil))
+	case !exact:
+		dd := derDiff(rb, k.ref)
+		r.Violation("C13|"+T+"|reencode|"+dd, fmt.Sprintf("%s: Marshal(Unmarshal(b)) != b for a reference encoding without zero-valued optionals; first difference at %s", T, dd), det(map[string]any{"reencoded_hex": hexCut(rb), "reencoded_len": len(rb)}))
+	default:
+		r.Inc(cp + "_ref_reencoded_exact")
+		r.SampleKind(cp, 1, map[string]any{"case": ck, "hex": hexCut(k.ref)})
 	}
 }
 
@@ -300,7 +339,9 @@ func typeTasks(r *vh.Run, add func(func())) {
 			m := kmsg.KDCReq{MsgType: mt, PAData: pa, Body: b}
 			nb, ntk := normBody(b, tk)
 			n := kmsg.KDCReq{MsgType: mt, PAData: normPAs(pa), Body: nb}
-			return m, n, gKDCReqFields(mt, n.PAData, nb, ntk)
+			f := gKDCReqFields(mt, n.PAData, nb, ntk)
+			f.ReqBody.KDCOptions = g.lfv(f.ReqBody.KDCOptions)
+			return m, n, f
 		}
 	}
 	reqParse := func(mt int) func(b []byte) ([]byte, error) {
@@ -312,24 +353,24 @@ func typeTasks(r *vh.Run, add func(func())) {
 			return m.DER(), err
 		}
 	}
-	run(r, add, spec[messages.ASReq]{name: "AS-REQ", minSlots: 1,
+	run(r, add, spec[messages.ASReq]{name: "AS-REQ", minSlots: 1, hasFlags: true,
 		gen: func(g *gen) kase[messages.ASReq] {
 			m, n, f := genReq(10)(g)
-			return kase[messages.ASReq]{ref: m.DER(), norm: n.DER(), g: messages.ASReq{KDCReqFields: f}, model: m}
+			return kase[messages.ASReq]{ref: g.lf(m.DER()), norm: g.lf(n.DER()), g: messages.ASReq{KDCReqFields: f}, model: m}
 		},
 		refParse:  reqParse(10),
 		marshal:   func(v *messages.ASReq) ([]byte, error) { return v.Marshal() },
 		unmarshal: func(v *messages.ASReq, b []byte) error { return v.Unmarshal(b) }})
-	run(r, add, spec[messages.TGSReq]{name: "TGS-REQ", minSlots: 1,
+	run(r, add, spec[messages.TGSReq]{name: "TGS-REQ", minSlots: 1, hasFlags: true,
 		gen: func(g *gen) kase[messages.TGSReq] {
 			m, n, f := genReq(12)(g)
-			return kase[messages.TGSReq]{ref: m.DER(), norm: n.DER(), g: messages.TGSReq{KDCReqFields: f}, model: m}
+			return kase[messages.TGSReq]{ref: g.lf(m.DER()), norm: g.lf(n.DER()), g: messages.TGSReq{KDCReqFields: f}, model: m}
 		},
 		refParse:  reqParse(12),
 		marshal:   func(v *messages.TGSReq) ([]byte, error) { return v.Marshal() },
 		unmarshal: func(v *messages.TGSReq, b []byte) error { return v.Unmarshal(b) }})
 
-	run(r, add, spec[messages.KDCReqBody]{name: "KDC-REQ-BODY", minSlots: 1,
+	run(r, add, spec[messages.KDCReqBody]{name: "KDC-REQ-BODY", minSlots: 1, hasFlags: true,
 		gen: func(g *gen) kase[messages.KDCReqBody] {
 			// additional tickets: absent, or 1..3 (present but empty only in zero cases)
 			b, tk := g.body()
@@ -339,7 +380,9 @@ func typeTasks(r *vh.Run, add func(func())) {
 			} else {
 				r.Inc(fmt.Sprintf("kdcreqbody_additional_tickets=%d", len(tk)))
 			}
-			return kase[messages.KDCReqBody]{ref: b.DER(), norm: nb.DER(), g: gBody(nb, ntk), model: b}
+			gb := gBody(nb, ntk)
+			gb.KDCOptions = g.lfv(gb.KDCOptions)
+			return kase[messages.KDCReqBody]{ref: g.lf(b.DER()), norm: g.lf(nb.DER()), g: gb, model: b}
 		},
 		refParse:  func(b []byte) ([]byte, error) { m, err := kmsg.ParseKDCReqBody(b); return m.DER(), err },
 		marshal:   func(v *messages.KDCReqBody) ([]byte, error) { return v.Marshal() },
@@ -381,7 +424,7 @@ func typeTasks(r *vh.Run, add func(func())) {
 		marshal:   func(v *messages.TGSRep) ([]byte, error) { return v.Marshal() },
 		unmarshal: func(v *messages.TGSRep, b []byte) error { return v.Unmarshal(b) }})
 
-	run(r, add, spec[messages.EncKDCRepPart]{name: "EncKDCRepPart", minSlots: 1,
+	run(r, add, spec[messages.EncKDCRepPart]{name: "EncKDCRepPart", minSlots: 1, hasFlags: true,
 		gen: func(g *gen) kase[messages.EncKDCRepPart] {
 			m := g.encKDCRepPart()
 			n := normEncKDCRepPart(m)
@@ -390,7 +433,8 @@ func typeTasks(r *vh.Run, add func(func())) {
 				m.AppTag = 26
 				k.reObserve = "EncTGSRepPart-tag26"
 			}
-			k.ref, k.norm = m.DER(), n.DER()
+			k.ref, k.norm = g.lf(m.DER()), g.lf(n.DER())
+			k.g.Flags = g.lfv(k.g.Flags)
 			if k.reObserve != "" && !bytes.Equal(normEncKDCRepPart(m).DER(), m.DER()) {
 				k.reObserve += "-zero-optional"
 			}
@@ -406,12 +450,14 @@ func typeTasks(r *vh.Run, add func(func())) {
 		n := m
 		nt := normTicket(t)
 		n.Ticket, n.Auth = nt.DER(), normEnc(m.Auth)
-		return m, n, gAPReq(n, nt)
+		v := gAPReq(n, nt)
+		v.APOptions = g.lfv(v.APOptions)
+		return m, n, v
 	}
-	run(r, add, spec[messages.APReq]{name: "AP-REQ", minSlots: 3,
+	run(r, add, spec[messages.APReq]{name: "AP-REQ", minSlots: 3, hasFlags: true,
 		gen: func(g *gen) kase[messages.APReq] {
 			m, n, v := genAPReq(g)
-			return kase[messages.APReq]{ref: m.DER(), norm: n.DER(), g: v, model: m}
+			return kase[messages.APReq]{ref: g.lf(m.DER()), norm: g.lf(n.DER()), g: v, model: m}
 		},
 		refParse:  func(b []byte) ([]byte, error) { m, err := kmsg.ParseAPReq(b); return m.DER(), err },
 		marshal:   func(v *messages.APReq) ([]byte, error) { return v.Marshal() },
@@ -512,10 +558,10 @@ func typeTasks(r *vh.Run, add func(func())) {
 	// KRB5 mech token carrying an AP-REQ. The token id is an unexported field: a gokrb5 value with
 	// it set is obtained by unmarshalling a fixed minimal reference token, then its AP-REQ is replaced.
 	seed := kmsg.KRB5Token{TokID: kmsg.TokAPReq, Msg: kmsg.APReq{Ticket: kmsg.Ticket{Vno: 5, Realm: "R", SName: kmsg.N(1, "s"), Enc: kmsg.EncData{Etype: 18, Cipher: []byte{1}}}.DER(), Auth: kmsg.EncData{Etype: 18, Cipher: []byte{2}}}.DER()}.DER()
-	run(r, add, spec[spnego.KRB5Token]{name: "KRB5Token", minSlots: 3,
+	run(r, add, spec[spnego.KRB5Token]{name: "KRB5Token", minSlots: 3, hasFlags: true,
 		gen: func(g *gen) kase[spnego.KRB5Token] {
 			m, n, v := genAPReq(g)
-			k := kase[spnego.KRB5Token]{ref: kmsg.KRB5Token{TokID: kmsg.TokAPReq, Msg: m.DER()}.DER(), norm: kmsg.KRB5Token{TokID: kmsg.TokAPReq, Msg: n.DER()}.DER(), model: m}
+			k := kase[spnego.KRB5Token]{ref: kmsg.KRB5Token{TokID: kmsg.TokAPReq, Msg: g.lf(m.DER())}.DER(), norm: kmsg.KRB5Token{TokID: kmsg.TokAPReq, Msg: g.lf(n.DER())}.DER(), model: m}
 			var err error
 			if p, pv, _ := vh.Guard(func() { err = k.g.Unmarshal(append([]byte{}, seed...)) }); p || err != nil {
 				k.bad = fmt.Sprintf("cannot obtain a KRB5Token value with the AP-REQ token id: %v %v", pv, err)
